@@ -1,0 +1,66 @@
+//go:build verif
+
+package util
+
+// Contracts for the verif build tag (comment-only; see /verif/DESIGN.md).
+
+//@ prop C18
+
+//@ func Uint160DecodeBytesBE
+//@ ensures[len] (err == nil) == (len(b) == 20)
+//@ ensures[val] err == nil ==> forall(i, 0, 20, u[i] == b[i])
+
+//@ func Uint160DecodeBytesLE
+//@ ensures[len] (err == nil) == (len(b) == 20)
+//@ ensures[val] err == nil ==> forall(i, 0, 20, u[i] == b[19-i])
+//@ loop 0 invariant forall(j, 0, $i, u[19-j] == b[j])
+
+//@ func (Uint160).BytesBE
+//@ ensures[val] len(result) == 20 && forall(i, 0, 20, result[i] == u[i])
+//@ ensures[noalias] fresh(result)
+
+//@ func (Uint160).BytesLE
+//@ ensures[val] len(result) == 20 && forall(i, 0, 20, result[i] == u[19-i])
+//@ ensures[noalias] fresh(result)
+
+//@ func (Uint160).Reverse
+//@ ensures[val] forall(i, 0, 20, r[i] == u[19-i])
+//@ loop 0 invariant forall(j, 0, $i, r[j] == u[19-j])
+
+//@ func (Uint160).Equals
+//@ ensures result == forall(i, 0, 20, u[i] == other[i])
+
+//@ func (Uint160).Less
+//@ ensures[lex] result == exists(k, 0, 20, forall(j, 0, k, u[j] == other[j]) && u[k] < other[k])
+//@ loop 0 invariant forall(j, 0, $i, u[j] == other[j])
+
+//@ func (Uint160).Compare
+//@ ensures[eq] (result == 0) == forall(i, 0, 20, u[i] == other[i])
+//@ ensures[lt] (result < 0) == exists(k, 0, 20, forall(j, 0, k, u[j] == other[j]) && u[k] < other[k])
+
+//@ func Uint256DecodeBytesBE
+//@ ensures[len] (err == nil) == (len(b) == 32)
+//@ ensures[val] err == nil ==> forall(i, 0, 32, u[i] == b[i])
+
+//@ func Uint256DecodeBytesLE
+//@ ensures[len] (err == nil) == (len(b) == 32)
+//@ ensures[val] err == nil ==> forall(i, 0, 32, u[i] == b[31-i])
+//@ ensures[pure] forall(i, 0, len(b), b[i] == old(b[i]))
+
+//@ func (Uint256).BytesBE
+//@ ensures[val] len(result) == 32 && forall(i, 0, 32, result[i] == u[i])
+//@ ensures[noalias] fresh(result)
+
+//@ func (Uint256).BytesLE
+//@ ensures[val] len(result) == 32 && forall(i, 0, 32, result[i] == u[31-i])
+//@ ensures[noalias] fresh(result)
+
+//@ func (Uint256).Reverse
+//@ ensures[val] forall(i, 0, 32, result[i] == u[31-i])
+
+//@ func (Uint256).Equals
+//@ ensures result == forall(i, 0, 32, u[i] == other[i])
+
+//@ func (Uint256).Compare
+//@ ensures[eq] (result == 0) == forall(i, 0, 32, u[i] == other[i])
+//@ ensures[lt] (result < 0) == exists(k, 0, 32, forall(j, 0, k, u[j] == other[j]) && u[k] < other[k])
